@@ -589,3 +589,70 @@ End Kron.
 Definition g1 : G := (1%Z, 0%Z).
 Definition gmul (a b : G) : G :=
   ((fst a * fst b - snd a * snd b)%Z, (fst a * snd b + snd a * fst b)%Z).
+
+(* ------------------------------------------------------------------ *)
+(* _to_tensor_of_super, branch for a Compound of superoperator spaces (the
+   private function only: reshuffle() never sends a Compound there).  For a
+   factor over N subsystems:
+     idxs = range(0, N * 2, 2)
+     perm_idxs += [[i + shift] for i in idxs]
+     perm_idxs += [[i + shift + 1] for i in idxs]          shift += N * 2 *)
+Fixpoint tos_compound_order (shift : nat) (ns : list nat) : list nat :=
+  match ns with
+  | [] => []
+  | n :: t =>
+      map (fun i => shift + 2 * i) (seq 0 n) ++ map (fun i => shift + 2 * i + 1) (seq 0 n)
+      ++ tos_compound_order (shift + 2 * n) t
+  end.
+
+Fixpoint interleave (L R : list nat) : list nat :=
+  match L, R with
+  | x :: l, y :: r => x :: y :: interleave l r
+  | _, _ => []
+  end.
+
+(* ------------------------------------------------------------------ *)
+(* partial_transpose.py *)
+
+(* np.choose(mask, [A, B]): B where the mask is set, A elsewhere *)
+Fixpoint choose (mask : list bool) (A B : list nat) : list nat :=
+  match mask, A, B with
+  | m :: ms, a :: As, b :: Bs => (if m then b else a) :: choose ms As Bs
+  | _, _, _ => []
+  end.
+
+(* _partial_transpose_sparse: where the stored entry (m, n) is written.
+   state_index_number = digits, state_number_index = undigits. *)
+Definition pt_sparse_index (dims : list nat) (mask : list bool) (m n : nat) : nat * nat :=
+  let A := digits dims m in
+  let B := digits dims n in
+  (undigits dims (choose mask A B), undigits dims (choose mask B A)).
+
+(* _partial_transpose_dense:
+     pt_dims = arange(2 nsys).reshape(2, nsys).T        pt_dims[k] = [k, nsys + k]
+     pt_idx = [pt_dims[k, mask[k]] ...] ++ [pt_dims[k, 1 - mask[k]] ...]
+     data.reshape(flatten(dims)).transpose(pt_idx).reshape(shape) *)
+Definition pt_idx (mask : list bool) : list nat :=
+  let n := length mask in
+  map (fun p : nat * bool => if snd p then n + fst p else fst p) (combine (seq 0 n) mask) ++
+  map (fun p : nat * bool => if snd p then fst p else n + fst p) (combine (seq 0 n) mask).
+Definition pt_dense_index (dims : list nat) (mask : list bool) (f : nat) : nat :=
+  let sh := dims ++ dims in
+  undigits (gather (pt_idx mask) sh) (gather (pt_idx mask) (digits sh f)).
+
+Section PTPayload.
+  Variable C : Type.
+  Definition pt_entries_sparse (dims : list nat) (mask : list bool) (E : list (entry C))
+    : list (entry C) :=
+    map (fun e => match e with
+                  | (i, j, v) => (fst (pt_sparse_index dims mask i j),
+                                  snd (pt_sparse_index dims mask i j), v)
+                  end) E.
+  Definition pt_entries_dense (dims : list nat) (mask : list bool) (E : list (entry C))
+    : list (entry C) :=
+    let N := prod dims in
+    map (fun e => match e with
+                  | (i, j, v) => let g := pt_dense_index dims mask (i * N + j) in
+                                 (g / N, g mod N, v)
+                  end) E.
+End PTPayload.
